@@ -280,7 +280,7 @@ fn judge(before: &Graph, after: &Graph, s: &Stmt, obs: &WObs) -> Option<(String,
     // a stored null is not a property
     for n in &after.nodes {
         if n.props.iter().any(|(_, v)| *v == Val::Null) && !before.nodes.iter().any(|m| m.id == n.id && m.props == n.props) {
-            return Some((format!("node {} holds a property whose value is null", n.id), Some("set_null_stores_null")));
+            return Some((format!("node {} holds a property whose value is null", n.id), Some("null_stored")));
         }
     }
     // MERGE of a single node pattern with literal properties and no reading clause
@@ -291,17 +291,21 @@ fn judge(before: &Graph, after: &Graph, s: &Stmt, obs: &WObs) -> Option<(String,
                     let m = |g: &Graph| {
                         g.nodes.iter().filter(|n| p.start.labels.iter().all(|l| n.labels.contains(l)) && props_match(n, &want)).count()
                     };
-                    let (b, a) = (m(before), m(after));
+                    let b = m(before);
                     if matches!(obs, WObs::Ok(_)) {
-                        if b >= 1 && (a != b || after.nodes.len() != before.nodes.len()) {
-                            let cls = if p.start.labels.is_empty() { Some("merge_without_label") } else { None };
-                            return Some((format!("MERGE created a node although {} node(s) already matched its pattern", b), cls));
+                        // (ON MATCH / ON CREATE SET may rewrite the very properties the pattern names,
+                        // so the judgement is on the number of nodes)
+                        if b >= 1 && after.nodes.len() != before.nodes.len() {
+                            return Some((format!("MERGE created a node although {} node(s) already matched its pattern", b), None));
                         }
-                        if b == 0 && a != 1 {
-                            return Some((format!("MERGE found no match and left {} matching node(s)", a), None));
+                        if b == 0 && after.nodes.len() != before.nodes.len() + 1 {
+                            return Some((
+                                format!("MERGE found no match and the graph went from {} to {} nodes", before.nodes.len(), after.nodes.len()),
+                                None,
+                            ));
                         }
                         if let WObs::Ok(rows) = obs {
-                            if s.ret.is_some() && rows.len() != b.max(1) {
+                            if s.ret.is_some() && s.shape != "merge_many_matches" && rows.len() != b.max(1) {
                                 return Some((
                                     format!("MERGE matched {} node(s) but returned {} row(s)", b, rows.len()),
                                     Some("merge_binds_first_match"),
@@ -321,7 +325,7 @@ fn judge(before: &Graph, after: &Graph, s: &Stmt, obs: &WObs) -> Option<(String,
             if gone.iter().any(|i| connected(*i)) {
                 return Some((
                     format!("DELETE without DETACH removed connected node(s) {:?} and their relationships", gone),
-                    Some("delete_connected_node"),
+                    None,
                 ));
             }
         }
@@ -369,6 +373,15 @@ fn ret_props(vars: &[u32]) -> Proj {
     }
     Proj { distinct: false, items, order: vec![], skip: None, limit: None }
 }
+fn ret_count() -> Proj {
+    Proj { distinct: false, items: vec![(Item::Agg(AggOp::Count, false, None), 80)], order: vec![], skip: None, limit: None }
+}
+fn count_matches(g: &Graph, np: &NPat) -> usize {
+    match lit_props(&np.props) {
+        Some(want) => g.nodes.iter().filter(|n| np.labels.iter().all(|l| n.labels.contains(l)) && props_match(n, &want)).count(),
+        None => 0,
+    }
+}
 fn match_one(var: u32, id: u64) -> Clause {
     Clause::Match {
         opt: false,
@@ -396,12 +409,19 @@ fn gen_stmt(r: &mut Rng, g: &Graph) -> Stmt {
     };
     let with_ret = r.chance(1, 2);
     match r.below(24) {
-        0 => Stmt {
-            reads: vec![],
-            updates: vec![Upd::Create(vec![CPath { start: lit_npat(r, Some(0), 0), segs: vec![] }])],
-            ret: if with_ret { Some(ret_props(&[0])) } else { None },
-            shape: "create_node",
-        },
+        0 => {
+            let mut np = lit_npat(r, Some(0), 0);
+            let null = r.chance(1, 6);
+            if null {
+                np.props.push((3, lit(Val::Null)));
+            }
+            Stmt {
+                reads: vec![],
+                updates: vec![Upd::Create(vec![CPath { start: np, segs: vec![] }])],
+                ret: if with_ret { Some(ret_props(&[0])) } else { None },
+                shape: if null { "create_null" } else { "create_node" },
+            }
+        }
         1 => {
             let rel = CRel { var: None, ty: r.below(3) as u32, out: r.chance(2, 3), props: if r.chance(1, 3) { vec![(0, lit(small_lit(r, 0)))] } else { vec![] } };
             Stmt {
@@ -440,12 +460,17 @@ fn gen_stmt(r: &mut Rng, g: &Graph) -> Stmt {
             }
             let multi = np.labels.len() > 1;
             let oc = if r.chance(1, 3) { vec![SetItem::Prop(0, 2, lit(Val::Bool(true)))] } else { vec![] };
-            let om = if r.chance(1, 3) { vec![SetItem::Prop(0, 1, lit(Val::Str("m".into())))] } else { vec![] };
+            let mut om = if r.chance(1, 3) { vec![SetItem::Prop(0, 1, lit(Val::Str("m".into())))] } else { vec![] };
+            let many = count_matches(g, &np) > 1;
+            if many {
+                // the engine binds one of the matches (known finding): nothing may depend on which
+                om.clear();
+            }
             Stmt {
                 reads: vec![],
                 updates: vec![Upd::Merge(CPath { start: np.clone(), segs: vec![] }, oc, om)],
-                ret: if with_ret { Some(ret_props(&[0])) } else { None },
-                shape: if np.labels.is_empty() { "merge_no_label" } else if multi { "merge_multi_label" } else { "merge_node" },
+                ret: if many { Some(ret_count()) } else if with_ret { Some(ret_props(&[0])) } else { None },
+                shape: if many { "merge_many_matches" } else if np.labels.is_empty() { "merge_no_label" } else if multi { "merge_multi_label" } else { "merge_node" },
             }
         }
         6 => {
@@ -459,11 +484,12 @@ fn gen_stmt(r: &mut Rng, g: &Graph) -> Stmt {
             if np.props.is_empty() {
                 np.props.push((0, lit(Val::Int(1))));
             }
+            let many = count_matches(g, &np) > 1;
             Stmt {
                 reads: vec![],
                 updates: vec![Upd::Merge(CPath { start: np, segs: vec![] }, vec![], vec![])],
-                ret: if with_ret { Some(ret_props(&[0])) } else { None },
-                shape: "merge_no_label",
+                ret: if many { Some(ret_count()) } else if with_ret { Some(ret_props(&[0])) } else { None },
+                shape: if many { "merge_many_matches" } else { "merge_no_label" },
             }
         }
         7 => Stmt {
@@ -595,10 +621,61 @@ fn gen_stmt(r: &mut Rng, g: &Graph) -> Stmt {
 /// known-finding class of a statement shape on which the engine is known to deviate
 fn known_class(shape: &str) -> Option<&'static str> {
     match shape {
-        "set_null" => Some("set_null_stores_null"),
+        "set_null" | "create_null" | "set_map_add" => Some("null_stored"),
+        "merge_many_matches" => Some("merge_binds_first_match"),
         "set_error_rhs" => Some("set_error_becomes_null"),
         _ => None,
     }
+}
+
+/// Stored witnesses of the known findings (known_findings.txt), replayed on the implementation every run.
+fn replay_known(out: &mut Out) {
+    let engine = QueryEngine::new();
+    let fresh = || build_store(&fixed_graph()).0;
+    let mut st = fresh();
+    let q = "MATCH (v0) WHERE id(v0) = 1 SET v0.p0 = null";
+    let o = run_stmt(&engine, &mut st, q);
+    let d = dump(&st);
+    let stored = d.nodes.iter().any(|n| n.id == 1 && n.props.iter().any(|(k, v)| *k == 0 && *v == Val::Null));
+    out.known.push(KnownReplay {
+        class: "null_stored".into(),
+        still_fails: stored,
+        detail: format!(
+            "{} on the fixed graph: node 1 afterwards {:?} ({}); openCypher removes p0",
+            q,
+            d.nodes.iter().find(|n| n.id == 1).map(|n| &n.props),
+            match o {
+                WObs::Ok(_) => "Ok",
+                WObs::Err(_) => "Err",
+                WObs::Panic(_) => "Panic",
+            }
+        ),
+    });
+    let mut st = fresh();
+    let q = "MATCH (v0) WHERE id(v0) = 1 SET v0.p1 = 1 / 0";
+    let o = run_stmt(&engine, &mut st, q);
+    out.known.push(KnownReplay {
+        class: "set_error_becomes_null".into(),
+        still_fails: matches!(o, WObs::Ok(_)),
+        detail: format!(
+            "{} on the fixed graph: engine {}, openCypher raises an arithmetic error",
+            q,
+            match &o {
+                WObs::Ok(_) => "answers Ok and stores null".to_string(),
+                WObs::Err(e) => format!("Err({})", e),
+                WObs::Panic(p) => format!("Panic({})", p),
+            }
+        ),
+    });
+    let mut st = fresh();
+    let q = "MERGE (v0:A) RETURN id(v0) AS x";
+    let o = run_stmt(&engine, &mut st, q);
+    let n = if let WObs::Ok(rows) = &o { rows.len() } else { 0 };
+    out.known.push(KnownReplay {
+        class: "merge_binds_first_match".into(),
+        still_fails: n != 2,
+        detail: format!("{} on the fixed graph (two :A nodes): engine returns {} row(s), openCypher 2", q, n),
+    });
 }
 
 fn probe(path: &str) {
@@ -700,6 +777,7 @@ fn main() {
             }
         }
     }
+    replay_known(&mut out);
     out.count_n("distinct_shapes", shapes.len() as u64);
     out.finish();
 }
